@@ -40,16 +40,17 @@ def from_callback_(
                         return
 
                     observer.on_next(results)
+                elif len(results) == 1:
+                    observer.on_next(results[0])
+                elif results:
+                    observer.on_next(results)
                 else:
-                    if len(results) <= 1:
-                        observer.on_next(*results)
-                    else:
-                        observer.on_next(results)
+                    observer.on_next(None)
 
-                    observer.on_completed()
+                observer.on_completed()
 
-            arguments.append(handler)
-            func(*arguments)
+            # pass a per-subscription handler; never mutate the captured arguments
+            func(*arguments, handler)
             return Disposable()
 
         return Observable(subscribe)
